@@ -5,7 +5,7 @@
    SortingMultiReaderIterator: any entry with minimal reception time may be popped (BinaryHeap
    leaves the choice among equal keys unspecified). *)
 From Coq Require Import List NArith Bool Permutation Sorted Lia.
-From AdltV Require Import Base.Res Base.MachInt Merge.Multi Merge.MultiProofs Exec.C09.
+From AdltV Require Import Base.Res Base.MachInt Merge.Multi Merge.MultiProofs Merge.AcceptComplete Exec.C09.
 Import ListNotations.
 Open Scope N_scope.
 
@@ -56,6 +56,21 @@ Section Statements.
       (same_msg_eq : forall a b, same_msg a b = true -> a = b) start h obs :
     accepts rt set_index same_msg start h obs = true -> Run rt set_index start h obs.
   Proof. exact (accepts_sound rt set_index same_msg same_msg_eq obs start h). Qed.
+
+  (* ... and it accepts EVERY run of a family whose messages carry their source (the families the check generates):
+     the correspondence check cannot raise a false alarm on an implementation whose output is a run, whatever
+     tie-breaking choices its heap makes *)
+  Theorem C09_acceptor_complete (src : A -> nat) (src_set : forall i m, src (set_index i m) = src m)
+      (same_msg : A -> A -> bool)
+      (same_msg_eq : forall a b, same_msg a b = true -> a = b) (same_msg_refl : forall a, same_msg a a = true)
+      start its out :
+    its_tagged src 0 its ->
+    Run rt set_index start (new_heap its) out ->
+    accepts rt set_index same_msg start (new_heap its) out = true.
+  Proof.
+    intros Ht Hr. apply (accepts_complete rt set_index src src_set same_msg same_msg_eq same_msg_refl _ _ _ Hr).
+    rewrite new_heap_flat. exact (proj1 (tagged_flat src its 0 Ht)).
+  Qed.
 
   (* sequential chaining = concatenation, numbered from the start index, empty sources anywhere *)
   Theorem C09_chain_concat start its :
@@ -130,6 +145,7 @@ Print Assumptions C09_merge_indices_consecutive.
 Print Assumptions C09_merge_sorted_if_sources_sorted.
 Print Assumptions C09_merge_total.
 Print Assumptions C09_acceptor_sound.
+Print Assumptions C09_acceptor_complete.
 Print Assumptions C09_chain_concat.
 Print Assumptions C09_chain_indices.
 Print Assumptions C09_single_source_identity.
